@@ -27,6 +27,22 @@ class ExtModule:
         return "<summary module %s>" % self.name
 
 
+class Infinity:
+    """np.inf: larger than every finite abstract value"""
+
+    def __init__(self, sign=1):
+        self.sign = sign
+
+    def __neg__(self):
+        return Infinity(-self.sign)
+
+    def __repr__(self):
+        return "inf" if self.sign > 0 else "-inf"
+
+
+INF = Infinity()
+
+
 class NullContext:
     def __init__(self, value=None):
         self.value = value
@@ -839,7 +855,27 @@ arccos = _elementwise(lambda v: ring.fun_atom("Arccos", v), "arccos")
 erf = _elementwise(lambda v: ring.fun_atom("Erf", v), "erf")
 square = _elementwise(lambda v: v * v, "square")
 reciprocal = _elementwise(lambda v: ring.inv(v), "reciprocal")
-isnan = lambda x, **kw: (np.zeros(np.shape(x), dtype=bool) if isinstance(x, np.ndarray) else False)
+def _has_nan(v):
+    try:
+        v = P(v)
+    except TypeError:
+        return False
+    nan = ring.G.by_name.get("NaN")
+    return nan is not None and nan in ring.all_syms(v)
+
+
+def isnan(x, **kw):
+    if isinstance(x, (list, tuple)):
+        x = np.array([_has_nan(v) for v in x], dtype=bool)
+        return x
+    if isinstance(x, np.ndarray):
+        if x.dtype == object:
+            out = np.zeros(x.shape, dtype=bool)
+            for idx in np.ndindex(x.shape):
+                out[idx] = _has_nan(x[idx])
+            return out
+        return np.zeros(x.shape, dtype=bool)
+    return _has_nan(x)
 isfinite = lambda x, **kw: (np.ones(np.shape(x), dtype=bool) if isinstance(x, np.ndarray) else True)
 isinf = isnan
 
@@ -1889,7 +1925,7 @@ def externals(it):
         isnan=isnan, isfinite=isfinite, isinf=isinf, deg2rad=deg2rad, rad2deg=rad2deg, radians=deg2rad, degrees=rad2deg,
         any=_np_any, all=_np_all, floor=_floor, ceil=_ceil, vectorize=_vectorize,
         isscalar=lambda x: isinstance(x, (int, Fraction, Poly, np.integer, np.bool_, bool, str)),
-        pi=ring.pi(), newaxis=None, nan=Opaque("nan"), inf=Opaque("inf"), e=ring.fun_atom("Exp", ONE),
+        pi=ring.pi(), newaxis=None, nan=ring.sym("NaN"), inf=INF, e=ring.fun_atom("Exp", ONE),
         ndarray=np.ndarray, generic=np.generic,
         float64=TypeMarker("float64", _np_float, lambda x: isinstance(x, (Fraction, Poly))),
         float32=TypeMarker("float32", _np_float, lambda x: False),
